@@ -12,6 +12,9 @@ import SqiProofs.HnfEchelon
 import SqiProofs.QuatGroupIndex
 import SqiProofs.QuatO0
 import SqiGen.QuatAlg
+import SqiGen.QuatMat
+import SqiGen.HnfCore
+import SqiProofs.HnfText
 /- C14 — "Quaternion algebra and lattice arithmetic is exact and canonical".
    Property theorems about the hand model `SqiModel.Quat` (tie H: the model's executable definitions are run
    against the C functions of algebra.c / dim4.c / lattice.c on every check run by tools/props/c14.py).
@@ -98,6 +101,44 @@ theorem quat_alg_mul_translated_exact (p : ℤ) (a b : Elem) (ha : a.denom ≠ 0
   rw [h]
   exact algMul_val p a b ha hb
 
+/-- tie T: the entry scan of `ibz_mat_4x4_gcd` as translated from the current C text is the model's content of ALL 16
+    entries (a scan restricted to part of the matrix — seeded change C14-m2 — breaks this proof at `lake build`) -/
+theorem mat_gcd_translated (m : Mat4) : SqiGen.QuatMat.ibz_mat_4x4_gcd ibzGcd m.get = m.gcd := by
+  obtain ⟨⟨a00, a01, a02, a03⟩, ⟨a10, a11, a12, a13⟩, ⟨a20, a21, a22, a23⟩, ⟨a30, a31, a32, a33⟩⟩ := m
+  rfl
+
+/-- tie T: `ibz_mat_4x4_scalar_div` as translated = the model (quotients and "all remainders zero" flag) -/
+theorem mat_scalar_div_translated (s : ℤ) (m : Mat4) :
+    SqiGen.QuatMat.ibz_mat_4x4_scalar_div Int.tdiv Int.tmod s m.get = ((m.scalarDiv s).1.toList, (m.scalarDiv s).2) := by
+  obtain ⟨⟨a00, a01, a02, a03⟩, ⟨a10, a11, a12, a13⟩, ⟨a20, a21, a22, a23⟩, ⟨a30, a31, a32, a33⟩⟩ := m
+  simp only [SqiGen.QuatMat.ibz_mat_4x4_scalar_div, Mat4.scalarDiv, Mat4.map, Vec4.map, Mat4.toList, Vec4.toList,
+    Vec4.scalarDiv, Mat4.get, Mat4.row, Vec4.get, List.cons_append, List.nil_append, Prod.mk.injEq, true_and,
+    Bool.true_and, Bool.and_assoc]
+
+/-- tie T: the call skeleton of `quat_lattice_reduce_denom` as translated = the model `latReduceDenom` -/
+theorem reduce_denom_translated (l : Lattice) :
+    SqiGen.QuatMat.quat_lattice_reduce_denom ibzGcd Int.tdiv Int.tmod Mat4.gcd (fun s m => (Mat4.scalarDiv s m).1)
+      l.denom l.basis = ((latReduceDenom l).denom, (latReduceDenom l).basis) := rfl
+
+set_option maxHeartbeats 40000 in
+/-- tie T: the data flow of `quat_lattice_add`, `quat_lattice_hnf`, `quat_lattice_dual_without_hnf` as translated from
+    lattice.c (which basis is scaled by which denominator, which half of the 4×8 HNF input each fills, the product of the
+    denominators, the transpose / adjugate / determinant roles in the dual, the final reduce_denom) = the model
+    (`quat_lattice_intersect` is the composition dual ∘ add ∘ (dual, dual) followed by hnf, modelled as such) -/
+theorem lattice_callers_translated (l1 l2 : Lattice) :
+    SqiGen.QuatMat.quat_lattice_add (· * ·) Mat4.get Vec4.mk Mat4.scalarMul Mat4.transpose Mat4.invWithDet hnfCore
+        (fun d b => ((latReduceDenom ⟨d, b⟩).denom, (latReduceDenom ⟨d, b⟩).basis)) l1.denom l1.basis l2.denom l2.basis
+      = ((latAdd l1 l2).denom, (latAdd l1 l2).basis) ∧
+    SqiGen.QuatMat.quat_lattice_hnf (· * ·) Mat4.get Vec4.mk Mat4.scalarMul Mat4.transpose Mat4.invWithDet hnfCore
+        (fun d b => ((latReduceDenom ⟨d, b⟩).denom, (latReduceDenom ⟨d, b⟩).basis)) l1.denom l1.basis
+      = ((latHnf l1).denom, (latHnf l1).basis) ∧
+    SqiGen.QuatMat.quat_lattice_dual_without_hnf (· * ·) Mat4.get Vec4.mk Mat4.scalarMul Mat4.transpose Mat4.invWithDet
+        hnfCore (fun d b => ((latReduceDenom ⟨d, b⟩).denom, (latReduceDenom ⟨d, b⟩).basis)) l1.denom l1.basis
+      = ((latDualNoHnf l1).denom, (latDualNoHnf l1).basis) := by
+  refine ⟨rfl, rfl, ?_⟩
+  unfold SqiGen.QuatMat.quat_lattice_dual_without_hnf latDualNoHnf
+  simp only []
+
 /-! ## dim4.c -/
 
 theorem mat_mul_exact (a b : Mat4) : toMatrix (a.mul b) = toMatrix a * toMatrix b := toMatrix_mul a b
@@ -117,6 +158,69 @@ theorem mat_gcd_exact (m : Mat4) :
     0 ≤ m.gcd ∧ (∀ r c, r < 4 → c < 4 → m.gcd ∣ m.get r c) ∧
     (∀ z : ℤ, (∀ r c, r < 4 → c < 4 → z ∣ m.get r c) → z ∣ m.gcd) :=
   ⟨mat_gcd_nonneg m, fun r c hr hc => mat_get_dvd m r c hr hc, fun z h => dvd_mat_gcd m z h⟩
+
+/-! ### tie T for the Hermite-normal-form loop: arithmetic blocks and control skeleton re-extracted from dim4.c -/
+
+/-- the guarded body of the inner loop as translated from the C text IS the model's `hnfStep` (xgcd call, the `u == 0`
+    repair, both linear combinations with their coefficients and signs, the copy into a[k]) -/
+theorem hnf_inner_step_translated (xgcd : ℤ → ℤ → ℤ × ℤ × ℤ) (i k j : Nat) (a : Cols) (h : Nat) :
+    (hnfStep xgcd i k j a) h =
+      ((a.set j (SqiGen.HnfCore.inner_step xgcd Int.tdiv Int.tmod Vec4.get Vec4.lc Vec4.neg i (a k) (a j)).1).set k
+        (SqiGen.HnfCore.inner_step xgcd Int.tdiv Int.tmod Vec4.get Vec4.lc Vec4.neg i (a k) (a j)).2) h := by
+  unfold hnfStep SqiGen.HnfCore.inner_step
+  by_cases h0 : (a j).get i = 0
+  · simp only [h0, if_true, ne_eq, not_true_eq_false, if_false, Cols.set]
+    show a.get h = _
+    split <;> [skip; split] <;> simp_all
+  · simp only [h0, if_false, ne_eq, not_false_eq_true, if_true]
+
+/-- the sign normalisation of the pivot as translated = the normalisation inside the model's `hnfRow` -/
+theorem hnf_normalise_translated (xgcd : ℤ → ℤ → ℤ × ℤ × ℤ) (i : Nat) (ak : Vec4) :
+    SqiGen.HnfCore.normalise xgcd Int.tdiv Int.tmod Vec4.get Vec4.lc Vec4.neg i ak =
+      (if ak.get i < 0 then ak.neg else ak, if ak.get i < 0 then -(ak.get i) else ak.get i) := by
+  unfold SqiGen.HnfCore.normalise
+  rfl
+
+/-- the body of the reduction loop as translated = the column update of the model's `hnfReduce` (truncated quotient,
+    floor adjustment when the remainder is negative, subtraction of the multiple of the pivot column) -/
+theorem hnf_reduce_step_translated (xgcd : ℤ → ℤ → ℤ × ℤ × ℤ) (i : Nat) (b : ℤ) (ak aj : Vec4) :
+    SqiGen.HnfCore.reduce_step xgcd Int.tdiv Int.tmod Vec4.get Vec4.lc Vec4.neg i b ak aj =
+      Vec4.lc 1 aj (-(if Int.tmod (aj.get i) b < 0 then Int.tdiv (aj.get i) b - 1 else Int.tdiv (aj.get i) b)) ak := by
+  unfold SqiGen.HnfCore.reduce_step
+  rfl
+
+/-- … and that column update is literally one unfolding of `hnfReduce` -/
+theorem hnfReduce_unfold (xgcd : ℤ → ℤ → ℤ × ℤ × ℤ) (i k : Nat) (b : ℤ) (n j : Nat) (a : Cols) :
+    hnfReduce i k b (n + 1) j a = hnfReduce i k b n (j + 1)
+      (a.set j (SqiGen.HnfCore.reduce_step xgcd Int.tdiv Int.tmod Vec4.get Vec4.lc Vec4.neg i b (a k) (a j))) := by
+  rw [hnf_reduce_step_translated]
+  rfl
+
+/-- **`ibz_mat_4x8_hnf_core` as TEXT = the model**: the loop program (while/for loops, guards, the integer updates of i, j,
+    k, position of the blocks) and the three arithmetic blocks, all translated from the current dim4.c, put together compute
+    `hnfCore` — the function `hnf_span`, `hnf_echelon`, `hnf_is_hnf`, `hnf_canonical` are about — and every loop of the
+    program ends through its own condition (final i = −1), so the fuel bound of the translation is never reached.
+    (Input/output copy loops: `hnf_skeleton_translated`.) -/
+theorem hnf_core_text (g : List Vec4) :
+    (SqiGen.HnfCore.core (SqiProofs.HnfText.innerStepG xgcdGmp) (SqiProofs.HnfText.normG xgcdGmp)
+        (SqiProofs.HnfText.reduceG xgcdGmp) (colsOfList g)).i = -1 ∧
+    Mat4.ofCols
+      ((SqiGen.HnfCore.core (SqiProofs.HnfText.innerStepG xgcdGmp) (SqiProofs.HnfText.normG xgcdGmp)
+        (SqiProofs.HnfText.reduceG xgcdGmp) (colsOfList g)).a 4)
+      ((SqiGen.HnfCore.core (SqiProofs.HnfText.innerStepG xgcdGmp) (SqiProofs.HnfText.normG xgcdGmp)
+        (SqiProofs.HnfText.reduceG xgcdGmp) (colsOfList g)).a 5)
+      ((SqiGen.HnfCore.core (SqiProofs.HnfText.innerStepG xgcdGmp) (SqiProofs.HnfText.normG xgcdGmp)
+        (SqiProofs.HnfText.reduceG xgcdGmp) (colsOfList g)).a 6)
+      ((SqiGen.HnfCore.core (SqiProofs.HnfText.innerStepG xgcdGmp) (SqiProofs.HnfText.normG xgcdGmp)
+        (SqiProofs.HnfText.reduceG xgcdGmp) (colsOfList g)).a 7) = hnfCore g :=
+  SqiProofs.HnfText.core_text_eq_model xgcdGmp g
+
+/-- the control skeleton of `ibz_mat_4x8_hnf_core` / `ibz_mat_4x4_hnf_mod` extracted from the current C text (initial
+    values of i, j, k; loop headers; guards; the integer updates of i/j/k; position of the three arithmetic blocks; input
+    and output copy loops with their index expressions) is the one the hand model implements (documented at
+    `SqiModel.Quat.hnfCoreSkeleton`).  Syntactic tie: any change of the loop structure breaks this proof. -/
+theorem hnf_skeleton_translated :
+    SqiGen.HnfCore.skeleton = hnfCoreSkeleton ∧ SqiGen.HnfCore.skeleton_mod = hnfModSkeleton := by decide
 
 /-- the model of `mpz_gcdext` returns a positive gcd with Bezout cofactors -/
 theorem xgcd_bezout : XgcdSpec xgcdGmp := SqiProofs.Xgcd.xgcdGmp_spec
